@@ -474,7 +474,7 @@ Proof.
                             n_resolvable := [MEDIA_JSON] |} |}).
   set (mf := {| bad_ctypes := []; bad_tags := [(1, x)] |}).
   set (r := {| r_status := 200; r_headers := []; r_text := None; r_data := None;
-               r_media := Some (MApp 1) |}).
+               r_media := Some (MApp 1); r_rendered := None |}).
   exists v, mf, r, x. eexists. eexists. eexists.
   repeat split; try (vm_compute; reflexivity). discriminate.
 Qed.
@@ -493,7 +493,7 @@ Proof.
                v_ncfg := {| n_xml := true; n_preferred := None; n_accept := [];
                             n_resolvable := [] |} |}).
   exists v, {| bad_ctypes := []; bad_tags := [] |},
-    {| r_status := 200; r_headers := []; r_text := None; r_data := None; r_media := None |},
+    {| r_status := 200; r_headers := []; r_text := None; r_data := None; r_media := None; r_rendered := None |},
     no_writes, x, (HCustom 0).
   split; vm_compute; reflexivity.
 Qed.
@@ -794,7 +794,104 @@ Theorem error_response_headers_exact n c e r :
   set_headers [] (load_headers (ctor_headers c None))
   ++ [(s_content_type, MEDIA_JSON); (s_vary, s_Accept)].
 Proof.
-  intros Hr He Hp. destruct r as [st hs tx da me]. simpl in Hr. subst hs.
+  intros Hr He Hp. destruct r as [st hs tx da me rd]. simpl in Hr. subst hs.
   unfold compose_error, with_ctor, serialize_error. cbn [e_headers e_status]. rewrite He, Hp.
   destruct c as [a|[|c0 cs]|[v|]|nn|]; reflexivity.
+Qed.
+
+(* ------------------------------------------------------------------ the render cache and the reset *)
+
+(* the cache, when filled, belongs to the CURRENT media *)
+Definition cache_ok (r : resp) : Prop :=
+  match r_rendered r with Some c => r_media r = Some c | None => True end.
+
+Theorem reset_clears_cache r : r_rendered (clear r) = None /\ cache_ok (clear r).
+Proof. split; reflexivity. Qed.
+
+(* everything about the body - text, data, media AND a cached rendering of the media - is
+   discarded before the handler runs: only status and headers of the response matter *)
+Theorem reset_discards_all v r1 r2 x :
+  r_status r1 = r_status r2 -> r_headers r1 = r_headers r2 ->
+  handle_exception v r1 x = handle_exception v r2 x.
+Proof.
+  intros Hs Hh. unfold handle_exception.
+  assert (clear r1 = clear r2) as -> by (unfold clear, with_media, with_data, with_text; simpl; rewrite Hs, Hh; reflexivity).
+  reflexivity.
+Qed.
+
+Lemma cache_ok_with_status r s : cache_ok r -> cache_ok (with_status r s). Proof. auto. Qed.
+Lemma cache_ok_with_headers r h : cache_ok r -> cache_ok (with_headers r h). Proof. auto. Qed.
+Lemma cache_ok_with_text r t : cache_ok r -> cache_ok (with_text r t). Proof. auto. Qed.
+Lemma cache_ok_with_data r d : cache_ok r -> cache_ok (with_data r d). Proof. auto. Qed.
+Lemma cache_ok_with_media r m : cache_ok (with_media r m). Proof. exact I. Qed.
+
+Lemma cache_ok_early r : cache_ok r -> cache_ok (early_render r).
+Proof.
+  unfold early_render. intro H.
+  destruct (r_text r); [exact H|]. destruct (r_data r); [exact H|].
+  destruct (r_media r) eqn:Em; [|exact H]. destruct (r_rendered r) eqn:Er; [exact H|].
+  reflexivity.
+Qed.
+
+Lemma cache_ok_apply_writes w r : cache_ok r -> cache_ok (apply_writes w r).
+Proof.
+  intro H. unfold apply_writes.
+  set (r1 := match w_status w with Some s => with_status r s | None => r end).
+  assert (H1 : cache_ok r1) by (unfold r1; destruct (w_status w); auto using cache_ok_with_status).
+  set (r2 := match w_text w with Some t => with_text r1 (Some t) | None => r1 end).
+  assert (H2 : cache_ok r2) by (unfold r2; destruct (w_text w); auto using cache_ok_with_text).
+  set (r3 := match w_data w with Some d => with_data r2 (Some (DRaw d)) | None => r2 end).
+  assert (H3 : cache_ok r3) by (unfold r3; destruct (w_data w); auto using cache_ok_with_data).
+  set (r4 := match w_media w with Some m => with_media r3 (Some (MApp m)) | None => r3 end).
+  assert (H4 : cache_ok r4) by (unfold r4; destruct (w_media w); auto using cache_ok_with_media).
+  destruct (w_render w); [apply cache_ok_early|]; apply cache_ok_with_headers; exact H4.
+Qed.
+
+Lemma cache_ok_serialize n r e : cache_ok r -> cache_ok (serialize_error n r e).
+Proof.
+  intro H. unfold serialize_error. fold (final_preferred n).
+  apply cache_ok_with_headers.
+  destruct (final_preferred n) as [p|]; [|exact H].
+  apply cache_ok_with_headers.
+  destruct (str_eqb p MEDIA_JSON); [apply cache_ok_with_data; exact H|].
+  destruct (mem p (n_resolvable n)); [apply cache_ok_with_media|].
+  destruct (n_xml n); [apply cache_ok_with_data|]; exact H.
+Qed.
+
+Lemma cache_ok_compose_error n r e : cache_ok r -> cache_ok (compose_error n r e).
+Proof.
+  intro H. unfold compose_error. apply cache_ok_serialize.
+  destruct (e_headers e); [apply cache_ok_with_headers|]; apply cache_ok_with_status; exact H.
+Qed.
+
+Lemma cache_ok_compose_status r s : cache_ok r -> cache_ok (compose_status r s).
+Proof.
+  intro H. unfold compose_status. apply cache_ok_with_text.
+  destruct (s_headers s); [apply cache_ok_with_headers|]; apply cache_ok_with_status; exact H.
+Qed.
+
+(* whatever the response looked like when the exception was raised - in particular with the
+   success payload already rendered and cached - the response the handler leaves has a cache
+   that belongs to ITS media: a stale rendering can never be sent *)
+Theorem no_stale_rendering v r x : cache_ok (snd (handle_exception v r x)).
+Proof.
+  unfold handle_exception.
+  destruct (find_error_handler (v_reg v) (x_mro x)) as [[| | |n]|]; cbn [snd].
+  - apply cache_ok_compose_error. reflexivity.
+  - destruct (x_payload x); cbn [snd]; try reflexivity. apply cache_ok_compose_error. reflexivity.
+  - destruct (x_payload x); cbn [snd]; try reflexivity. apply cache_ok_compose_status. reflexivity.
+  - assert (Hw : cache_ok (apply_writes (h_writes (script_of v n)) (clear r)))
+      by (apply cache_ok_apply_writes; reflexivity).
+    destruct (h_end (script_of v n)); cbn [snd]; auto using cache_ok_compose_error, cache_ok_compose_status.
+  - reflexivity.
+Qed.
+
+Theorem rendered_media_is_current mf r b :
+  cache_ok r -> render mf r = inl (BMedia b) -> r_media r = Some b.
+Proof.
+  unfold render, cache_ok. destruct (r_text r); [discriminate|]. destruct (r_data r); [discriminate|].
+  destruct (r_media r) as [m|]; [|discriminate].
+  destruct (r_rendered r) as [c|].
+  - intros H E. injection E as <-. exact H.
+  - intros _. destruct (media_fails mf r m); [discriminate|]. intro E. injection E as <-. reflexivity.
 Qed.
